@@ -270,7 +270,18 @@ func runC33Extra(c *Ctx) {
 			if !isConstBool(e.Results[0], false) {
 				continue
 			}
-			if h := loopHeaderOf(e.Ret.Block()); h == nil {
+			if cur == nil {
+				continue
+			}
+			h := cur.Block()
+			body := loopBody(h)
+			normal := false
+			for _, sc := range h.Succs {
+				if !body[sc] && (sc == e.Ret.Block() || (e.Pred != nil && sc == e.Pred)) {
+					normal = true
+				}
+			}
+			if normal || !h.Dominates(e.Ret.Block()) {
 				continue // after the loop: every bucket was consulted
 			}
 			n++
